@@ -35,14 +35,16 @@ def record(pid, wt, needs):
     env = dict(os.environ, PYTHONPATH=wt, MPLBACKEND="Agg")
     with_change = subprocess.run(["/venv/bin/python", "demo.py"], cwd=wt,
                                  env=env, capture_output=True, text=True)
-    sh("git stash", cwd=wt)
+    # (git stash is shared between worktrees of one repository: use the
+    # saved diff instead)
+    sh("git checkout -- nessai", cwd=wt)
     try:
         without = subprocess.run(["/venv/bin/python", "demo.py"], cwd=wt,
                                  env=env, capture_output=True, text=True)
     finally:
-        sh("git stash pop", cwd=wt)
+        sh(f"git apply {os.path.join(d, 'patch.diff')}", cwd=wt)
     meta = {
-        "property": pid,
+        "property": pid[:3],
         "needs_to_manifest": needs,
         "demo_with_change_exit": with_change.returncode,
         "demo_with_change_tail": (with_change.stdout + with_change.stderr)[
@@ -110,6 +112,6 @@ if __name__ == "__main__":
     else:
         args = [a for a in sys.argv[2:] if not a.startswith("--")]
         pid = args[0]
-        checks = args[1:] or [pid]
+        checks = args[1:] or [pid[:3]]
         tier = "thorough" if "--thorough" in sys.argv else "quick"
         sys.exit(check(pid, checks, apply="--apply" in sys.argv, tier=tier))
